@@ -3,7 +3,7 @@
 Entry: {"id", "property", "status": "known"|"fixed", "what", "match": {...}, "commit"?}
 ``match`` keys (all must hold; each value is a regular expression searched in the field):
   invariant, cls, symptom, op_kind, site, history  (history = comma-joined op kinds of the
-  minimised replay), detail.
+  minimised replay), detail, params (JSON of the model's constructor parameters), spec.
 Only ``status == "known"`` entries suppress anything; ``fixed`` entries are documentation.
 """
 from __future__ import annotations
@@ -29,7 +29,9 @@ def match(known: list[dict], rec: dict) -> dict | None:
     v = rec["violation"]
     fields = dict(invariant=v.get("invariant", ""), cls=v.get("cls", ""), symptom=v.get("symptom", ""),
                   op_kind=v.get("op_kind", ""), site=v.get("site", ""), detail=v.get("detail", ""),
-                  history=rec.get("history", ""))
+                  history=rec.get("history", ""), tags=v.get("tags", ""),
+                  params=json.dumps((rec.get("config") or {}).get("params", {}), sort_keys=True),
+                  spec=str((rec.get("config") or {}).get("spec", "")))
     for k in known:
         if k.get("status") != "known" or k.get("property") != v.get("property"):
             continue
